@@ -1,0 +1,86 @@
+//go:build verif
+
+package ledger
+
+import (
+	"bytes"
+	"sort"
+)
+
+// VerifKeys returns every key known to the committed tree or to the
+// consensus overlay, sorted ascending.
+func (ledger *FinalityLedger[T]) VerifKeys() []LedgerKey {
+	ledger.mtx.Lock()
+	defer ledger.mtx.Unlock()
+
+	seen := make(map[LedgerKey]struct{})
+	_, _ = ledger.tree.Iterate(func(key []byte, value []byte) bool {
+		seen[ToLedgerKey(key)] = struct{}{}
+		return false
+	})
+	for k := range ledger.finalityItems.gotItems {
+		seen[k] = struct{}{}
+	}
+	for k := range ledger.finalityItems.updatedItems {
+		seen[k] = struct{}{}
+	}
+	keys := make([]LedgerKey, 0, len(seen))
+	for k := range seen {
+		keys = append(keys, k)
+	}
+	sort.Slice(keys, func(i, j int) bool { return bytes.Compare(keys[i][:], keys[j][:]) < 0 })
+	return keys
+}
+
+// VerifConsensusView calls cb with what GetFinality would return for every
+// known key (in ascending key order), using the ledger's own read logic but
+// leaving the overlay caches exactly as they were.
+func (ledger *FinalityLedger[T]) VerifConsensusView(cb func(LedgerKey, T)) {
+	keys := ledger.VerifKeys()
+
+	ledger.mtx.Lock()
+	defer ledger.mtx.Unlock()
+	for _, k := range keys {
+		_, had := ledger.finalityItems.gotItems[k]
+		item, xerr := ledger.getFinality(k)
+		if !had {
+			delete(ledger.finalityItems.gotItems, k)
+		}
+		if xerr == nil {
+			cb(k, item)
+		}
+	}
+}
+
+// VerifPending reports the sizes of the consensus overlay (got, updated,
+// removed) and of the mempool overlay (got, updated, removed).
+func (ledger *FinalityLedger[T]) VerifPending() [6]int {
+	ledger.mtx.Lock()
+	defer ledger.mtx.Unlock()
+	return [6]int{
+		len(ledger.finalityItems.gotItems), len(ledger.finalityItems.updatedItems), len(ledger.finalityItems.removedKeys),
+		len(ledger.SimpleLedger.cachedItems.gotItems), len(ledger.SimpleLedger.cachedItems.updatedItems), len(ledger.SimpleLedger.cachedItems.removedKeys),
+	}
+}
+
+// VerifCommittable calls cb with what Commit would persist for every key:
+// the committed tree with the removals and then the updates of the consensus
+// overlay applied (ascending key order).
+func (ledger *FinalityLedger[T]) VerifCommittable(cb func(LedgerKey, T)) {
+	keys := ledger.VerifKeys()
+
+	ledger.mtx.Lock()
+	defer ledger.mtx.Unlock()
+	for _, k := range keys {
+		if item, ok := ledger.finalityItems.updatedItems[k]; ok {
+			cb(k, item)
+			continue
+		}
+		if ledger.finalityItems.isRemovedKey(k) {
+			continue
+		}
+		if item, xerr := ledger.read(k); xerr == nil {
+			cb(k, item)
+		}
+	}
+}
